@@ -36,6 +36,8 @@ def spec_value(v):
         return "".join(chr(c) for c in v)
     if isinstance(v, dict) and set(v) == {"n", "d"}:
         return Fraction(v["n"], v["d"])
+    if isinstance(v, dict) and set(v) == {"dd", "ss", "us"}:
+        return datetime.timedelta(days=v["dd"], seconds=v["ss"], microseconds=v["us"])
     if isinstance(v, dict) and set(v) == {"y", "m", "d"}:
         return datetime.date(v["y"], v["m"], v["d"])
     if isinstance(v, dict) and "us" in v:
@@ -86,7 +88,11 @@ def canon(v, ty=None):
         if isinstance(v, datetime.date):
             return ("d", v.isoformat()) if ty == "date" else ("?", repr(v))
         return ("?", repr(v))
+    if ty == "duration":
+        return ("td", v.days, v.seconds, v.microseconds) if isinstance(v, datetime.timedelta) else ("?", repr(v))
     # untyped: structural
+    if isinstance(v, datetime.timedelta):
+        return ("td", v.days, v.seconds, v.microseconds)
     if isinstance(v, bool):
         return ("b", v)
     if isinstance(v, int):
@@ -203,6 +209,8 @@ def pl_family(dtype) -> str:
             return fam
     if s.startswith("Null"):
         return "null"
+    if s.startswith("Duration"):
+        return "duration"
     if s.startswith("Datetime"):
         return "datetime"
     if s.startswith("Date"):
@@ -220,4 +228,4 @@ def pdt_family(dtype) -> str:
         return "float"
     n = type(d).__name__
     return {"Bool": "bool", "String": "str", "NullType": "null", "Enum": "str", "Date": "date",
-            "Datetime": "datetime"}.get(n, n)
+            "Datetime": "datetime", "Duration": "duration"}.get(n, n)
